@@ -35,6 +35,8 @@ type c04Case struct {
 	Tail resp.Bin `json:"tail,omitempty"`
 	// Tracer: a tracer is installed on the server (the reply path may do more work then)
 	Tracer bool `json:"tracer,omitempty"`
+	// Runs: the server object has been started and stopped this many times before (and is running when the stream is served)
+	Runs int `json:"runs,omitempty"`
 }
 
 func firstName(v resp.Value) string {
@@ -77,6 +79,18 @@ func evalC04(c c04Case) *Failure {
 	if c.Tracer {
 		srv.SetTracer(doubles.NewTracer(&connsim.Log{}))
 	}
+	if c.Runs > 0 {
+		srv.SetPort(0)
+		for i := 0; i < c.Runs; i++ {
+			if err := srv.Start(); err != nil {
+				return failf("harness|start", "%v", err)
+			}
+			if i < c.Runs-1 {
+				srv.Stop()
+			}
+		}
+		defer srv.Stop()
+	}
 	data, _ := resp.EncodeAll(c.Stream)
 	data = append(data, c.Tail...)
 	conn := connsim.NewPreloaded(1, connsim.Chunks(data, c.Sizes))
@@ -88,6 +102,9 @@ func evalC04(c c04Case) *Failure {
 	what := fmt.Sprintf("stream %v (handler %s)", ss, c.Handler)
 	if c.Tracer {
 		what += " with a tracer installed"
+	}
+	if c.Runs > 0 {
+		what += fmt.Sprintf(" on a server in its run number %d", c.Runs)
 	}
 	if o.TimedOut {
 		return stallFailure("c04", what)
@@ -395,6 +412,9 @@ func TestC04(t *testing.T) {
 	h.Rapid("streams", h.N(30000, 100000), func(rt *rapid.T) {
 		c, labels := genC04Case(rt, h.Avoid)
 		c.Tracer = rapid.IntRange(0, 3).Draw(rt, "tracer") == 0
+		if rapid.IntRange(0, 3).Draw(rt, "started") == 0 {
+			c.Runs = rapid.IntRange(1, 3).Draw(rt, "runs")
+		}
 		data, _ := resp.EncodeAll(c.Stream)
 		nt := labels["crlf-in-request"] || labels["non-array-request"] || labels["odd-command-name"] || labels["empty-array"] || labels["nil-result"] || labels["error-result"] || labels["crlf-in-handler-line"]
 		var cl []string
@@ -402,7 +422,7 @@ func TestC04(t *testing.T) {
 			cl = append(cl, l)
 		}
 		cl = append(cl, "handler:"+c.Handler)
-		canon := append(append([]byte{}, data...), []byte(fmt.Sprintf("%v|%s|%v|%v", c.Results, c.Handler, c.Sizes, c.Tracer))...)
+		canon := append(append([]byte{}, data...), []byte(fmt.Sprintf("%v|%s|%v|%v|%d", c.Results, c.Handler, c.Sizes, c.Tracer, c.Runs))...)
 		h.Col.Case(nt, canon, cl...)
 		if h.Col.WantSample() {
 			var ss []string
